@@ -769,3 +769,100 @@ func (e *engineA) exclusiveIdle(cl *Cluster, n *Node) {
 		e.rc.emitNode(n.dir, &ev.Rec{K: "exclusive", Op: "identity-after-attempts", Idx: r.CID(), Term: r.NID()})
 	}
 }
+
+func init() {
+	scenarios["wiped-follower"] = scenWipedFollower
+	scenarios["transfer-faults"] = scenTransferFaults
+}
+
+// scenWipedFollower (C17): a follower loses its storage (disk replaced) and
+// comes back under the same identity while the same leader stays in office.
+func scenWipedFollower(e *engineA) error {
+	e.prof = profiles["general"]
+	if err := e.boot(3); err != nil {
+		return err
+	}
+	e.cl.startInfoSampler(e.hb() / 2)
+	l := e.cl.leader()
+	if l == nil {
+		return fmt.Errorf("no leader")
+	}
+	e.startClients(2, map[string]int{"update": 4, "read": 1})
+	e.sleepHB(3, 6)
+	f := e.others(l)[e.rng.Intn(2)]
+	e.rc.emit(&ev.Rec{K: "fault", Op: "wipe-follower", Nid: f.nid})
+	if !f.shutdown(30 * time.Second) {
+		return fmt.Errorf("shutdown")
+	}
+	e.sleepHB(1, 3)
+	if _, err := e.cl.start(f.nid, fmt.Sprintf("%s.wiped", f.dir)); err != nil {
+		return err
+	}
+	e.sleepHB(6, 10)
+	return e.finish()
+}
+
+// scenTransferFaults (C16): a leadership transfer with one message of the
+// exchange lost - the connection carrying the k-th next write on one of the
+// links leader->target, target->leader, target->third, third->target is
+// reset - or held and released late.
+func scenTransferFaults(e *engineA) error {
+	e.prof = profiles["transfer"]
+	n := 3 + e.rng.Intn(3)
+	if err := e.boot(n); err != nil {
+		return err
+	}
+	e.cl.startInfoSampler(e.hb() / 2)
+	e.startClients(3, map[string]int{"update": 5, "read": 1, "barrier": 1})
+	rounds := e.cfg.paramInt("rounds", 6)
+	for i := 0; i < rounds; i++ {
+		e.sleepHB(2, 4)
+		l := e.cl.waitLeader(60 * e.hb())
+		if l == nil {
+			continue
+		}
+		os := e.others(l)
+		t := os[e.rng.Intn(len(os))]
+		third := os[(e.rng.Intn(len(os)-1)+1+indexOf(os, t))%len(os)]
+		links := [][2]*Node{{l, t}, {t, l}, {t, third}, {third, t}}
+		lk := links[e.rng.Intn(len(links))]
+		k := int64(1 + e.rng.Intn(6))
+		cur := e.net.WriteSeq(lk[0].label, lk[1].label)
+		mode := e.rng.Intn(3)
+		switch mode {
+		case 0:
+			e.net.BreakAt(lk[0].label, lk[1].label, cur+k)
+		case 1:
+			e.net.StallAt(lk[0].label, lk[1].label, cur+k)
+		}
+		e.rc.emit(&ev.Rec{K: "fault", Op: fmt.Sprintf("transfer-with-fault-mode%d", mode), Nid: l.nid, ID: t.nid, Idx: uint64(k), Note: fmt.Sprintf("%d->%d", lk[0].nid, lk[1].nid)})
+		target := t.nid
+		if e.rng.Intn(3) == 0 {
+			target = 0
+		}
+		done := make(chan struct{})
+		go func() {
+			e.cl.transfer(l, target, time.Duration(2+e.rng.Intn(6))*e.hb())
+			close(done)
+		}()
+		select {
+		case <-done:
+		case <-time.After(40 * e.hb()):
+		}
+		e.sleepHB(1, 3)
+		e.net.BreakAt(lk[0].label, lk[1].label, 0)
+		e.net.StallAt(lk[0].label, lk[1].label, 0)
+		e.net.Stall(lk[0].label, lk[1].label, false)
+		e.net.Release(lk[0].label, lk[1].label, e.rng.Intn(2) == 0)
+	}
+	return e.finish()
+}
+
+func indexOf(ns []*Node, n *Node) int {
+	for i, x := range ns {
+		if x == n {
+			return i
+		}
+	}
+	return 0
+}
